@@ -588,3 +588,53 @@ def iterable_handover(rep, rule, idx, ctor_spec, param, sink_call, sink_kw):
         rep.unk(rule, site, what, f"`{param}` is used at line {n.lineno} ({_ast.unparse(p)[:50]}) before the hand-over; whether that traverses it is not decided")
         return
     rep.ok(rule, site, what, f"{sink_call}({sink_kw}={param}) at line {sink.lineno}, no earlier traversal")
+
+
+def argument_agreement(rep, rule, idx, scope=None):
+    """Calls of repository functions / constructors whose callee is resolved: an argument that is a plain name equal to
+    the name of one of the callee's *other* parameters, while that parameter's own slot receives the name of this slot
+    (a swap), or a keyword `p=q` where q names another parameter of the callee whose own keyword gets `p`.  Name/position
+    agreement is the rule nearly every call in this package follows (`Signature(addr_width=addr_width, ...)`)."""
+    import ast as _ast
+    from ..core.effects import get_effects
+    ef = get_effects(idx)
+    n_calls = n_named = 0
+    for f in idx.all_functions():
+        if scope is not None and not (f.cls is not None and (f.cls.qual in scope or f.cls.name in scope)):
+            continue
+        types = ef.guard_types(f)
+        for call in _ast.walk(f.node):
+            if not isinstance(call, _ast.Call):
+                continue
+            kind = ef.resolve_call(call, f, types)
+            callee = kind[2] if kind[0] == 'class' else (kind[1] if kind[0] == 'func' else None)
+            if callee is None or isinstance(callee, str):
+                continue
+            a = callee.node.args
+            params = [x.arg for x in a.args]
+            if params and params[0] in ("self", "cls") and not callee.is_static:
+                params = params[1:]
+            kwonly = [x.arg for x in a.kwonlyargs]
+            n_calls += 1
+            slot = {}                                   # parameter -> argument name (plain names only)
+            for p_, arg in zip(params, call.args):
+                if isinstance(arg, _ast.Name):
+                    slot[p_] = arg.id
+                elif isinstance(arg, _ast.Attribute) and isinstance(arg.value, _ast.Name) and arg.value.id == "self":
+                    slot[p_] = arg.attr.lstrip("_")
+            for k in call.keywords:
+                if k.arg is not None and (k.arg in params or k.arg in kwonly):
+                    if isinstance(k.value, _ast.Name):
+                        slot[k.arg] = k.value.id
+                    elif isinstance(k.value, _ast.Attribute) and isinstance(k.value.value, _ast.Name) and k.value.value.id == "self":
+                        slot[k.arg] = k.value.attr.lstrip("_")
+            allp = set(params) | set(kwonly)
+            for p_, an in slot.items():
+                if an != p_ and an in allp:
+                    n_named += 1
+                    if slot.get(an) == p_:
+                        rep.bad(rule, f.site, f"{_ast.unparse(call)[:70]}",
+                                f"arguments `{an}` and `{p_}` are swapped: parameter `{p_}` of {callee.qual} receives `{an}` and parameter `{an}` "
+                                f"receives `{p_}`", line=call.lineno)
+    rep.ok(rule, "-", "no resolved call passes two like-named arguments in each other's slot", f"{n_calls} resolved call(s) examined",
+           nontrivial=n_calls > 0)
